@@ -141,3 +141,193 @@ pub fn run_tamper(args: &[String]) {
     for ((cls, kind), (n, acc, pan)) in &per { out.line(&json!({"kind":"class","class":cls,"mutation":kind,"tested":n,"accepted":acc,"panics":pan})); }
     out.line(&json!({"summary": true, "subjects": subs.len(), "mutants": total, "accepted": accepted}));
 }
+
+// ------------------------------------------------------------------------------------------------------------
+// C18: malformed shapes and extreme numbers must produce an error value, never a panic.
+// C17: the same extreme assignments under an event budget (fuel) proportional to the proof size.
+// ------------------------------------------------------------------------------------------------------------
+pub struct Recipe { pub subj: usize, pub label: String, pub edits: Vec<(Path, Edit)> }
+#[derive(Clone)]
+pub enum Edit { Set(Value), Empty, DropFirst, DropLast, DupLast, Extend2, Rotate, Truncate(usize) }
+
+pub fn apply(v: &mut Value, edits: &[(Path, Edit)]) {
+    for (p, e) in edits {
+        let t = get_mut(v, p);
+        match e {
+            Edit::Set(x) => *t = x.clone(),
+            Edit::Empty => { t.as_array_mut().unwrap().clear(); }
+            Edit::DropFirst => { let a = t.as_array_mut().unwrap(); if !a.is_empty() { a.remove(0); } }
+            Edit::DropLast => { t.as_array_mut().unwrap().pop(); }
+            Edit::DupLast => { let a = t.as_array_mut().unwrap(); if let Some(x) = a.last().cloned() { a.push(x); } }
+            Edit::Extend2 => { let a = t.as_array_mut().unwrap(); if let Some(x) = a.last().cloned() { a.push(x.clone()); a.push(x); } }
+            Edit::Rotate => { let a = t.as_array_mut().unwrap(); if a.len() > 1 { a.rotate_left(1); } }
+            Edit::Truncate(n) => { t.as_array_mut().unwrap().truncate(*n); }
+        }
+    }
+}
+
+pub fn recipes(subs: &[Subject], rng: &mut Rng, numbers_everywhere: bool) -> Vec<Recipe> {
+    let mut out = Vec::new();
+    for (si, s) in subs.iter().enumerate() {
+        let mut leaves = Vec::new(); let mut arrays = Vec::new();
+        walk(&s.proof, &mut Vec::new(), &mut leaves, &mut arrays);
+        for a in &arrays {
+            let len = get(&s.proof, a).as_array().unwrap().len();
+            for (l, e) in [("empty", Edit::Empty), ("drop-first", Edit::DropFirst), ("drop-last", Edit::DropLast), ("dup-last", Edit::DupLast), ("extend2", Edit::Extend2), ("rotate", Edit::Rotate), ("truncate-half", Edit::Truncate(len / 2)), ("truncate-1", Edit::Truncate(1))] {
+                out.push(Recipe { subj: si, label: format!("{}:{}", class_of(a), l), edits: vec![(a.clone(), e)] });
+            }
+        }
+        // every numeric field of config and public input at every extreme; witness / message values at a sample of positions
+        let mut seen_class: std::collections::BTreeMap<String, usize> = Default::default();
+        for l in &leaves {
+            let ps = path_str(l);
+            let structural = ps.starts_with("config") || ps.starts_with("public_input");
+            let c = class_of(l);
+            let cnt = seen_class.entry(c.clone()).or_default();
+            *cnt += 1;
+            if !structural && !numbers_everywhere && *cnt > 2 { continue; }
+            if structural && *cnt > 6 { continue; }
+            for (lab, val) in extremes(get(&s.proof, l), &ps) {
+                out.push(Recipe { subj: si, label: format!("{}={}", c, lab), edits: vec![(l.clone(), Edit::Set(val))] });
+            }
+        }
+        // consistent re-declarations of dependent numbers
+        let cfg = |k: &[&str]| -> Path { let mut p = vec![Seg::Key("config".into())]; for x in k { p.push(Seg::Key(x.to_string())); } p };
+        let felt_at = |p: &Path| -> Felt { Felt::from_hex(get(&s.proof, p).as_str().unwrap()).unwrap() };
+        let hexv = |f: Felt| -> Value { json!(format!("{:#x}", f)) };
+        let n_inner = get(&s.proof, &cfg(&["fri", "inner_layers"])).as_array().unwrap().len();
+        for d in [1u64, 2, 40, 1 << 20] {
+            // blow-up exponent +d with every height re-declared
+            let df = Felt::from(d);
+            let mut e = vec![(cfg(&["log_n_cosets"]), Edit::Set(hexv(felt_at(&cfg(&["log_n_cosets"])) + df)))];
+            for t in [vec!["traces", "original"], vec!["traces", "interaction"], vec!["composition"]] {
+                let mut p = cfg(&t); p.push(Seg::Key("vector".into())); p.push(Seg::Key("height".into()));
+                e.push((p.clone(), Edit::Set(hexv(felt_at(&p) + df))));
+            }
+            e.push((cfg(&["fri", "log_input_size"]), Edit::Set(hexv(felt_at(&cfg(&["fri", "log_input_size"])) + df))));
+            for i in 0..n_inner { let mut p = cfg(&["fri", "inner_layers"]); p.push(Seg::Idx(i)); p.push(Seg::Key("vector".into())); p.push(Seg::Key("height".into())); e.push((p.clone(), Edit::Set(hexv(felt_at(&p) + df)))); }
+            out.push(Recipe { subj: si, label: format!("redeclare:log_n_cosets+{d}"), edits: e.clone() });
+            // trace exponent +d likewise (and log_n_steps)
+            let mut e2: Vec<(Path, Edit)> = e[1..].to_vec();
+            e2.push((cfg(&["log_trace_domain_size"]), Edit::Set(hexv(felt_at(&cfg(&["log_trace_domain_size"])) + df))));
+            e2.push((cfg(&["fri", "log_last_layer_degree_bound"]), Edit::Set(hexv(felt_at(&cfg(&["fri", "log_last_layer_degree_bound"])) + df))));
+            let lns = vec![Seg::Key("public_input".into()), Seg::Key("log_n_steps".into())];
+            e2.push((lns.clone(), Edit::Set(hexv(felt_at(&lns) + df))));
+            out.push(Recipe { subj: si, label: format!("redeclare:log_trace+{d}"), edits: e2 });
+        }
+        // one more FRI layer declared, nothing supplied for it
+        let nl = cfg(&["fri", "n_layers"]);
+        out.push(Recipe { subj: si, label: "redeclare:n_layers+1".into(), edits: vec![(nl.clone(), Edit::Set(hexv(felt_at(&nl) + Felt::ONE)))] });
+        out.push(Recipe { subj: si, label: "redeclare:n_layers+1,step".into(), edits: vec![(nl.clone(), Edit::Set(hexv(felt_at(&nl) + Felt::ONE))), (cfg(&["fri", "fri_step_sizes"]), Edit::DupLast), (cfg(&["fri", "inner_layers"]), Edit::DupLast)] });
+        // random pairs of single edits
+        let singles: Vec<usize> = (0..out.len()).filter(|i| out[*i].subj == si && out[*i].edits.len() == 1).collect();
+        for _ in 0..(if numbers_everywhere { 400 } else { 120 }) {
+            let a = &out[singles[rng.below(singles.len() as u64) as usize]];
+            let b = &out[singles[rng.below(singles.len() as u64) as usize]];
+            if path_str(&a.edits[0].0).starts_with(&path_str(&b.edits[0].0)) || path_str(&b.edits[0].0).starts_with(&path_str(&a.edits[0].0)) { continue; }
+            let r = Recipe { subj: si, label: format!("{} & {}", a.label, b.label), edits: vec![a.edits[0].clone(), b.edits[0].clone()] };
+            out.push(r);
+        }
+    }
+    out
+}
+
+fn pi_alone(layout: &str, p: &StarkProof) -> Vec<(String, Option<String>)> {
+    // validate_public_input / verify_public_input / config validation taken alone
+    use swiftness_air::domains::StarkDomains;
+    use swiftness_air::layout::LayoutTrait;
+    fn g<L: LayoutTrait>(p: &StarkProof) -> Vec<(String, Option<String>)> {
+        let mut out = Vec::new();
+        let r = guarded(|| { let d = StarkDomains::new(p.config.log_trace_domain_size, p.config.log_n_cosets); L::validate_public_input(&p.public_input, &d).is_ok() });
+        out.push(("validate_public_input".to_string(), r.err()));
+        let r = guarded(|| L::verify_public_input(&p.public_input).is_ok());
+        out.push(("verify_public_input".to_string(), r.err()));
+        out
+    }
+    let mut out = if layout == "toy" { g::<crate::toy::Toy>(p) } else { real::dispatch!(layout, g, p) };
+    let r = guarded(|| p.config.validate(p.config.security_bits(), Felt::from(7), Felt::from(3)).is_ok());
+    out.push(("StarkConfig::validate".to_string(), r.err()));
+    out
+}
+
+/// args: <mode: c18|c17> <out.ndjson> <n_toy> <real: none|yes> <full: 0|1>
+pub fn run_malformed(args: &[String]) {
+    let mode = args[0].as_str();
+    let mut out = Out::file(&args[1]);
+    let n_toy: u64 = args[2].parse().unwrap();
+    let with_real = args[3] == "yes";
+    let full = args[4] == "1";
+    let mut rng = Rng::from_env(0xC18);
+    let subs = subjects(n_toy, with_real, &mut rng);
+    let recs = recipes(&subs, &mut rng, full);
+    // per-subject budget for C17: events of the honest run, and K * (number of leaves)
+    let budgets: Vec<(u64, u64)> = subs.iter().map(|s| {
+        let p: StarkProof = serde_json::from_value(s.proof.clone()).unwrap();
+        let (_, used) = verify_subject(&s.layout, &p, s.sb, None);
+        (used, 40 * s.size as u64 + 2000)
+    }).collect();
+    let results = par_map(&recs, n_threads(), |_, r| {
+        let s = &subs[r.subj];
+        let mut v = s.proof.clone();
+        apply(&mut v, &r.edits);
+        let p: StarkProof = match serde_json::from_value(v.clone()) { Ok(p) => p, Err(e) => return (json!({"tag":"undeserialisable","detail":format!("{e}")}), Vec::new()) };
+        let mut leaves = Vec::new(); let mut arrays = Vec::new();
+        walk(&v, &mut Vec::new(), &mut leaves, &mut arrays);
+        let budget = 40 * leaves.len() as u64 + 2000;
+        let t0 = std::time::Instant::now();
+        let (verdict, used) = verify_subject(&s.layout, &p, s.sb, Some(if mode == "c17" { budget } else { 50_000_000 }));
+        let ms = t0.elapsed().as_millis() as u64;
+        let alone = if mode == "c18" { pi_alone(&s.layout, &p) } else { Vec::new() };
+        (json!({"tag": verdict.tag(), "detail": verdict.detail(), "used": used, "budget": budget, "ms": ms, "size": leaves.len()}), alone)
+    });
+    let (mut total, mut bad) = (0u64, 0u64);
+    let mut sites: std::collections::BTreeMap<String, (u64, Value)> = Default::default();
+    let mut max_ratio = 0f64;
+    let mut max_ms = 0u64;
+    for (r, (res, alone)) in recs.iter().zip(results.iter()) {
+        total += 1;
+        let s = &subs[r.subj];
+        let tag = res["tag"].as_str().unwrap();
+        if mode == "c18" {
+            let mut panics: Vec<(String, String)> = Vec::new();
+            if tag == "panic" { panics.push(("verify".into(), res["detail"].as_str().unwrap().to_string())); }
+            for (f, e) in alone { if let Some(e) = e { panics.push((f.clone(), e.clone())); } }
+            for (entry, where_) in panics {
+                bad += 1;
+                let site = where_.split('|').next().unwrap_or("").to_string();
+                // stable key: file + function (line numbers move)
+                let key = format!("{}@{}", entry, site_key(&site));
+                let e = sites.entry(key).or_insert((0, json!({"entry": entry, "site": site, "message": where_.split('|').nth(1).unwrap_or(""), "layout": s.layout, "recipe": r.label, "subject": s.id,
+                    "edits": r.edits.iter().map(|(p, _)| path_str(p)).collect::<Vec<_>>()})));
+                e.0 += 1;
+            }
+        } else {
+            let used = res["used"].as_u64().unwrap_or(0);
+            let budget = res["budget"].as_u64().unwrap_or(1);
+            let ratio = used as f64 / res["size"].as_u64().unwrap_or(1).max(1) as f64;
+            if ratio > max_ratio { max_ratio = ratio; }
+            let ms = res["ms"].as_u64().unwrap_or(0);
+            if ms > max_ms { max_ms = ms; }
+            if tag == "fuel" || ms > 20_000 {
+                bad += 1;
+                out.line(&json!({"kind":"work","subject":s.id,"layout":s.layout,"recipe":r.label,"used":used,"budget":budget,"ms":ms,"why": if tag == "fuel" { "event budget (40 x leaves + 2000) exhausted" } else { "wall clock above 20 s" }}));
+            }
+        }
+    }
+    for (k, (n, ex)) in &sites { out.line(&json!({"kind":"panic-site","key":k,"count":n,"example":ex})); }
+    out.line(&json!({"summary": true, "mode": mode, "subjects": subs.len(), "recipes": total, "bad": bad, "honest_events": budgets.iter().map(|b| b.0).collect::<Vec<_>>(),
+                     "max_events_per_leaf": max_ratio, "max_ms": max_ms}));
+}
+
+/// "crates/fri/src/layer.rs:99 in compute_next_layer (via mod.rs:2207)" -> "crates/fri/src/layer.rs:compute_next_layer"
+pub fn site_key(site: &str) -> String {
+    let file = site.split(':').next().unwrap_or(site);
+    if let Some(i) = site.find(" in ") {
+        let f = site[i + 4..].split(' ').next().unwrap_or("");
+        let f = f.rsplit("::").next().unwrap_or(f);
+        format!("{file}:{f}")
+    } else {
+        // direct location file:line -> keep the line (index / assert sites are what identifies the defect)
+        site.to_string()
+    }
+}
